@@ -632,6 +632,12 @@ func main() {
 		}
 		return
 	}
+	if len(os.Args) > 1 && os.Args[1] == "multipart" {
+		for i := 0; i < 4; i++ {
+			multiPartScenario(rng)
+		}
+		return
+	}
 	if len(os.Args) > 1 && os.Args[1] == "lateloop" {
 		scenarioLateLoop()
 		return
@@ -673,6 +679,13 @@ func main() {
 	}
 	for i := 0; i < nR; i++ {
 		reconnectScenario(rng)
+	}
+	nP := 4
+	if gen.Thorough() {
+		nP = 30
+	}
+	for i := 0; i < nP; i++ {
+		multiPartScenario(rng)
 	}
 	nM := 12
 	if gen.Thorough() {
